@@ -56,8 +56,24 @@ def dqNextBack (l : List α) : Option (α × List α) :=
 def ExactlyOnce (owned front dropped back : List α) : Prop :=
   front ++ dropped ++ back.reverse = owned
 
+/-- cloning a sequence element by element with an element `Clone` that may panic (`none`): the copies
+    made before the first panicking call, and whether a call panicked.  What std's containers do on such
+    a panic: the partially built clone is dropped, i.e. exactly these copies, once each, and nothing else -/
+def clonesUntilPanic (fresh : Nat → α → Option α) : Nat → List α → List α × Bool
+  | _, [] => ([], false)
+  | i, x :: r =>
+    match fresh i x with
+    | none => ([], true)
+    | some v => (v :: (clonesUntilPanic fresh (i + 1) r).1, (clonesUntilPanic fresh (i + 1) r).2)
+
 /-! ### histories on the reference objects (same operation / observation vocabulary as the models) -/
 open Konst.ArrayBuilder (mapFrom)
+
+/-- reference for "clone with an element `Clone` panicking on its `j`-th call, caught; a completed clone
+    is dropped": `j` copies are made and dropped again if `j < len`, otherwise all `len` copies are made
+    and dropped with the clone; the container itself is unchanged -/
+def refClonePanic (fresh : Nat → α → α) (j : Nat) (l : List α) : List α × Bool :=
+  if j < l.length then (mapFrom fresh 0 (l.take j), true) else (mapFrom fresh 0 l, false)
 
 /-- one builder operation on the bounded vector -/
 def bvStep (fresh : Nat → α → α) (n : Nat) (st : List α × Nat) :
@@ -68,6 +84,9 @@ def bvStep (fresh : Nat → α → α) (n : Nat) (st : List α × Nat) :
     | none => ((st.1, st.2 + 1), .pushed false)
   | .clone => ((mapFrom (fun i => fresh (st.2 + i)) 0 st.1, st.2 + st.1.length), .cloned st.1)
   | .cloneDrop => ((st.1, st.2 + st.1.length), .cloned (mapFrom (fun i => fresh (st.2 + i)) 0 st.1))
+  | .clonePanic j =>
+    let r := refClonePanic (fun i => fresh (st.2 + i)) j st.1
+    ((st.1, st.2 + r.1.length), if r.2 then .panicked r.1 else .cloned r.1)
 
 def bvRun (fresh : Nat → α → α) (n : Nat) :
     List α × Nat → List (ArrayBuilder.Op α) → (List α × Nat) × List (ArrayBuilder.Obs α)
@@ -96,6 +115,9 @@ def dqStep (fresh : Nat → α → α) (st : List α × Nat) :
     | some (x, r) => ((r, st.2), .back (some x))
   | .clone => ((mapFrom (fun i => fresh (st.2 + i)) 0 st.1, st.2 + st.1.length), .cloned st.1)
   | .cloneDrop => ((st.1, st.2 + st.1.length), .cloned (mapFrom (fun i => fresh (st.2 + i)) 0 st.1))
+  | .clonePanic j =>
+    let r := refClonePanic (fun i => fresh (st.2 + i)) j st.1
+    ((st.1, st.2 + r.1.length), if r.2 then .panicked r.1 else .cloned r.1)
 
 def dqRun (fresh : Nat → α → α) :
     List α × Nat → List ArrayConsumer.Op → (List α × Nat) × List (ArrayConsumer.Obs α)
